@@ -116,4 +116,47 @@ def Item.admitsSlash : Item → Bool
   | .star => false
   | .cls neg rs => inRanges 47 rs != neg
 
+/-! ## Patterns with several components
+
+`GlobRel fs start rcs p`: the path `p` is `start/n₁/…/n_k` where `n_i` is an entry of the directory
+`start/n₁/…/n_{i-1}` that matches the `i`-th pattern component (`rcs` lists the components last first;
+`start` is `.` or the literal directory the pattern begins with). -/
+
+/-- what a pattern expansion sees of the file system: the names in a directory (`none`: no such directory) -/
+structure FsView where
+  list : Bytes → Option (List Bytes)
+
+def dotPath : Bytes := [46]
+
+/-- `d/n`, with `./n` written `n` -/
+def pjoin (d n : Bytes) : Bytes := if d = dotPath then n else d ++ slash :: n
+
+def GlobRel (fs : FsView) (start : Bytes) : List Bytes → Bytes → Prop
+  | [], p => p = start
+  | c :: rcs, p => ∃ d names n ast, GlobRel fs start rcs d ∧ fs.list d = some names ∧ n ∈ names ∧
+      Parses c ast ∧ Matches ast n ∧ p = pjoin d n
+
+/-- the pieces of a path between its `/`s -/
+def components : Bytes → List Bytes
+  | [] => [[]]
+  | c :: cs =>
+    if c = slash then [] :: components cs
+    else match components cs with
+      | [] => [[c]]
+      | h :: t => (c :: h) :: t
+
+/-- strict bytewise lexicographic order (Go's string order) -/
+def bytesLt : Bytes → Bytes → Prop
+  | _, [] => False
+  | [], _ :: _ => True
+  | a :: as, b :: bs => a < b ∨ (a = b ∧ bytesLt as bs)
+
+/-- strict lexicographic order of paths, component by component: the order of a sorted tree listing -/
+def compsLt : List Bytes → List Bytes → Prop
+  | _, [] => False
+  | [], _ :: _ => True
+  | a :: as, b :: bs => bytesLt a b ∨ (a = b ∧ compsLt as bs)
+
+def pathLt (p q : Bytes) : Prop := compsLt (components p) (components q)
+
 end Rare.C06.Spec
